@@ -524,6 +524,24 @@ def sampling_rules(chk, repo, clause):
     okn = (all(p.ret == S('method') for p in num)) if num else None
     chk.ob(clause, 'D-flow', f.key, 'a numeric sampling is the step that is used', okn,
            '; '.join(sorted({f'returns {fmt(p.ret)[:80]}' for p in num if p.ret != S('method')})) or f'{len(num)} path(s) return the number', f.loc())
+    # ... whatever kind of number it is: an int, a numpy integer or a float32 is a step just as a Python float is
+    narrow, seen_t = [], 0
+    for p in num:
+        for c, pol, _ in p.conds:
+            for x in nf.value_atoms(c):
+                if is_app(x, 'isinstance') and pol and len(x[2]) > 1 and x[2][0] == S('method'):
+                    seen_t += 1
+                    txt = repr(x[2][1])
+                    wide = any(k in txt for k in ('numpy.number', 'numpy.generic', 'numpy.floating', 'numbers.Number', 'numbers.Real',
+                                                  'numpy.ScalarType'))
+                    if not wide and not ("'int'" in txt and "'float'" in txt and 'numpy.' in txt):
+                        narrow.append(f'isinstance(method, {txt[:60]})')
+                elif is_app(x, ('numpy.isscalar', 'isscalar')) and pol:
+                    seen_t += 1
+    chk.ob(clause, 'T-dispatch', f.key, 'every real number is accepted as a numeric sampling (ints and numpy scalars included)',
+           (not narrow) if seen_t else None,
+           ('; '.join(sorted(set(narrow))[:2]) + ': `sampling=2` or `sampling=np.float32(0.5)` is refused as an unknown method') if narrow
+           else f'{seen_t} type test(s)', f.loc())
 
 
 def zernike_polar_rules(chk, repo, clause):
